@@ -16,7 +16,7 @@ CONSTANTS
   ErrIds = {}
   MaxSteps = 2
   HostileSteps = 2
-  AllScopes = TRUE
+  AllScopes = FALSE
 INVARIANTS FTypeOK
 PROPERTIES Confined EqualsRestriction ListingExact ScopesRewritten
 VIEW FView
